@@ -4,7 +4,7 @@
    transcribed from the text of the Recommendation, independently of the implementation model
    C05/Model.v (only the data types term/quad, the decimal printer, the generic insertion sort and
    the hash parameter are shared).  The specification leaves three orders open; they are
-   parameters here:
+   arguments here:
      [perms]      the order in which "each permutation p of blank node list" is visited (4.8, 5.4),
      [node_order] the order of "each key n in the blank node to quads map" (4.4, step 3), which is
                   also the order of every identifier list,
@@ -322,9 +322,9 @@ End Spec.
 Definition label_order (l : list str) : list str := sort_by str_leb l.
 
 (* ---------- harness-facing: implementation = model of the implementation = specification ---------- *)
-Definition three_ok (once : bool) (tbl : list (str * str)) (df1000 plimit : N) (d : list quad)
+Definition three_ok (repaired : bool) (tbl : list (str * str)) (df1000 plimit : N) (d : list quad)
            (code : N) (bytes : str) (idmap : list (str * str)) : bool :=
-  impl_ok once tbl df1000 plimit d code bytes idmap
+  impl_ok repaired tbl df1000 plimit d code bytes idmap
   && match spec_model (tbl_H tbl) heap_perms label_order d (fuel_for d) with
      | SpOk (b, i) =>
          if code =? 0 then str_eqb b bytes && list_eqb pair_eqb (sort_by pair_leb i) idmap
